@@ -4,8 +4,8 @@ package order
 
 import "net"
 
-// VerifParseOnionAddr exposes parseOnionAddr to the verification harness (used
+// VerifC19ParseOnionAddr exposes parseOnionAddr to the verification harness (used
 // only to measure the address oracle bit, not through the parsers under test).
-func VerifParseOnionAddr(addr string) (net.Addr, error) {
+func VerifC19ParseOnionAddr(addr string) (net.Addr, error) {
 	return parseOnionAddr(addr)
 }
